@@ -650,7 +650,20 @@ func (e *Engine) convert(x Value, from, to types.Type, g *Term, pos token.Pos) V
 			for i := len(sv.alts) - 1; i >= 0; i-- {
 				al := sv.alts[i]
 				var elems []Value
-				if eb != nil && eb.Kind() == types.Int32 {
+				if al.atom != nil {
+					// an opaque string is identified by its 64-bit id: its bytes are modelled as that id followed by
+					// zeroes (injective in the string's identity; only meaningful where the bytes are hashed or compared)
+					if eb == nil || eb.Kind() == types.Int32 || al.alen == nil || !al.alen.IsConst() || al.alen.val < 8 {
+						panic(unsupported("[]byte/[]rune of an opaque symbolic string of unknown or short length at " + e.pos(pos)))
+					}
+					for k := 0; k < int(al.alen.val); k++ {
+						if k < 8 {
+							elems = append(elems, Extract(al.atom, 8*k, 8))
+						} else {
+							elems = append(elems, BV(8, 0))
+						}
+					}
+				} else if eb != nil && eb.Kind() == types.Int32 {
 					for _, r := range al.s {
 						elems = append(elems, BV(32, uint64(r)))
 					}
